@@ -804,6 +804,9 @@ func snapAgreement(c *eng.Ctx, typ string, writer string, readers []string) {
 
 var immutableMemo = map[string]bool{}
 
+// ResetCaches clears memoised facts (used between mutants in the audit worker).
+func ResetCaches() { immutableMemo = map[string]bool{} }
+
 // helpers that mutate an object only while its constructor (the value) is still building it
 var constructionHelpers = map[string]string{
 	"server.applyReservedStreamOverrides": "server.newStream",
